@@ -64,6 +64,18 @@ CLAIMED = {
    text="FjallStore with filter assignment by name and a deterministic key-based filter (Remove / ReplaceValue / Keep) applied by compactions: TLC checks FilteredFormOnly, AssignedIffAssigner (also after reopen), FilteredIsSticky (action property), and ViewEqRef for unfiltered keyspaces. Replay with a real compaction filter factory installed through the builder: filtered keyspaces must show original or filtered form (sticky once observed), the exact model state after a major compaction, unfiltered keyspaces the reference map.",
    note="non-major compaction choices are the strategy's; the replay accepts either form there",
    technique="TLA+ spec (FjallStore filters) + TLC + replay with a real filter factory"),
+ "C06": dict(engine="mvcc-spec", design="6/C06",
+   text="FjallMVCC models writers stepping through the journal critical section (draw - apply item by item - publish), version upgrades of any tree that draw from the shared seqno counter and raise the shared visible counter without the journal mutex, and snapshot readers; TLC checks NoTornBatch, InflightAboveVisible, ViewsFrozen, MutualExclusion for all schedules of 2 writers (a 2-item batch over 2 keyspaces) x 2 views, without and with version upgrades (the latter reaches the open finding D7, waived only downstream of its signature). The TLC counterexample is forced on the real code with pause sites (writer parked between two applies, flush of another keyspace, snapshot reads both keys). Multi-threaded runs of the real code (4-6 threads, 2-4 real workers, tiny memtables, batches over 2 keyspaces, snapshots) are recorded through hooks under the journal mutex and validated against MVCC_Trace, which evaluates NoTornBatch in every state of the trace.",
+   note="lsm-tree's version upgrade is not hookable: inferred as forced silent steps from the seqno/visible scalars logged with every event; binding self-test (trace with a removed WApply must be rejected) on every run; known finding D7",
+   technique="TLA+ spec (FjallMVCC) + TLC exhaustive + forced schedule + trace validation of multi-threaded runs"),
+ "C14": dict(engine="mvcc-spec", design="6/C14",
+   text="FjallMVCC: seqno order = order of critical sections = apply order (MutualExclusion), reads see applied entries; TLC explores all schedules of the bounded instance. On the implementation 2-8 threads write and read the same small key set through cloned handles with 1-4 real worker threads and tiny memtables (rotation, flush, compaction running); call/return events per thread plus the internal draw/apply/publish events are validated against MVCC_Trace: every get must return a value the key had between its call and its return, every write must occupy exactly one critical section in seqno order, and the final content must equal the model state at the end of the trace.",
+   note="liveness of the write stall is observed only as: no run exceeds its watchdog and the database drop returns (the drop path itself is decided by C17's model); binding self-test on every run",
+   technique="TLA+ spec (FjallMVCC) + TLC + trace validation of multi-threaded runs (linearization points as silent steps)"),
+ "C17": dict(engine="lifecycle-spec", design="6/C17",
+   text="DbLifecycle models the version marker, the advisory lock shared by DatabaseInner and every KeyspaceInner, user handles, the worker pool (thread counter, bounded queue whose messages carry keyspace clones), every step of Drop for DatabaseInner, the field drop order of DatabaseInner / KeyspaceInner, Drop for Journal and the unlock. TLC checks HandleImpliesLock, AtMostOneInstance, RefusedChangesNothing, IncompatibleRefused, AbsentMarkerRefused, UnlockAfterSync, NoUnsyncedOpen, DropReturnedWorkersGone, SettledUnlocked exhaustively (2-3 interleaved open attempts, 2 workers that may fail, both handle kinds, messages sent through keyspace handles) and DropTerminatesAll under weak fairness; five variants that re-introduce the repaired defects D9/D19/D20/D21/D22 must each be rejected by the model on every run. Binding: forced schedules with pause sites for each model counterexample; TLC-simulated client-level behaviours (open attempts of all three database types, every marker class, clone/drop orders, writes, messages) replayed with real worker threads comparing lock state (flock probe), open result, directory digest after refused opens, worker threads alive, journal dropped, journal bytes covered by fsync (syscall record); multi-threaded handle churn recorded through lifecycle hooks and validated against Life_Trace with every invariant evaluated in every state.",
+   note="hook placement rule (releasing steps logged before, acquiring steps after) makes the logged lock-holding interval a subset of the real one; refusals with Locked are explained with the opposite approximation; the worker queue is not observed in traces; doc-hidden Keyspace::rotate_memtable through a keyspace that outlived its Database is out of scope",
+   technique="TLA+ spec (DbLifecycle) + TLC safety/liveness + forced schedules + behaviour replay + trace validation"),
 }
 
 REASON_PENDING = "check under construction in this session (specification module and conformance harness not yet bound); will be claimed once it runs green"
@@ -106,6 +118,10 @@ m = {
     "kind_free_text": "TLA+ specification of the journal file format at cell granularity and of the reader state machine; MC_JF_*.cfg"},
    {"name": "tx-spec", "path": "spec/FjallTx.tla", "serves_properties": ["C07", "C08", "C05"],
     "kind_free_text": "TLA+ specification of optimistic (SSI) and single-writer transactions; MC_Tx_*.cfg; MC_TxSim (behaviour generation)"},
+   {"name": "mvcc-spec", "path": "spec/FjallMVCC.tla", "serves_properties": ["C05", "C06", "C14"],
+    "kind_free_text": "TLA+ specification of writers' critical sections, version upgrades on the shared counters, snapshot readers; MC_MVCC_*.cfg; MVCC_Trace (trace validation of multi-threaded runs)"},
+   {"name": "lifecycle-spec", "path": "spec/DbLifecycle.tla", "serves_properties": ["C17"],
+    "kind_free_text": "TLA+ specification of lock, version marker, handles, worker shutdown, drop order; MC_Life*.cfg; MC_LifeSim (behaviour generation); Life_Trace (trace validation)"},
    {"name": "harness", "path": "harness/", "serves_properties": [p["id"] for p in props],
     "kind_free_text": "Rust conformance harness (path dependency on /repo, built with --cfg fjall_verif): replays specification behaviours on the real database and projects its state"},
  ],
